@@ -75,6 +75,17 @@ def state_histories_bounded(p):
                 state["X"] = state.X + 0.5
                 for r in ref:
                     r["X"] += 0.5
+                # one variable assigned from another, then the source moved IN PLACE (as the tracker does):
+                # the assigned variable must keep its own values
+                state["Y"] = state["X"]
+                keep = np.array(state.X, copy=True)
+                xs = state.X
+                xs += 0.25
+                for r in ref:
+                    r["X"] += 0.25
+                if len(keep) and not np.array_equal(np.asarray(state.Y), keep):
+                    bad = dict(step=k, what="state['Y'] = state['X'] followed by an in-place change of X changed Y too (variables share a buffer)")
+                    break
             bad = _check(state, ref, npid, k)
             if bad:
                 break
